@@ -5,6 +5,8 @@ import (
 	"fmt"
 	"math/rand/v2"
 	"os"
+	"os/exec"
+	"path/filepath"
 	"sort"
 	"strings"
 	"sync"
@@ -19,18 +21,38 @@ const (
 )
 
 type runner struct {
-	c  *corr.Ctx
-	mu sync.Mutex
+	c        *corr.Ctx
+	mu       sync.Mutex
+	dump     *corrDump // correspondence child: collect instead of feeding the context
+	inflight string    // correspondence child: directory of the cases in progress
 }
 
 func (r *runner) violate(clause, key string, input any, detail string) {
 	r.mu.Lock()
 	defer r.mu.Unlock()
-	r.c.Violate(corr.Violation{Property: "C11", Clause: clause, Key: key, Where: "server*.go", Input: input, Detail: detail})
+	v := corr.Violation{Property: "C11", Clause: clause, Key: key, Where: "server*.go", Input: input, Detail: detail}
+	if r.dump != nil {
+		for _, o := range r.dump.Violations {
+			if o.Key == key {
+				return
+			}
+		}
+		r.dump.Violations = append(r.dump.Violations, v)
+		return
+	}
+	r.c.Violate(v)
 }
 
 // check evaluates the property on what one correspondence case observed (independently of the model).
-func (r *runner) check(cs *Case, run *caseRun) {
+func (r *runner) check(cs *Case, run *caseRun) (out []corr.Violation) {
+	violate := func(clause, key string, input any, detail string) {
+		for _, o := range out {
+			if o.Key == key {
+				return
+			}
+		}
+		out = append(out, corr.Violation{Property: "C11", Clause: clause, Key: key, Where: "server*.go", Input: input, Detail: detail})
+	}
 	ts := run.ts
 	ts.mu.Lock()
 	panics := append([]string{}, ts.panics...)
@@ -47,10 +69,10 @@ func (r *runner) check(cs *Case, run *caseRun) {
 	}
 	ts.mu.Unlock()
 	for _, p := range panics {
-		r.violate("the server process does not panic", "hostile-panic", cs, p)
+		violate("the server process does not panic", "hostile-panic", cs, p)
 	}
 	if len(unbalanced) > 0 {
-		r.violate("everything tied to an ended connection is released (OnConnClose / OnSessionClose for everything opened)",
+		violate("everything tied to an ended connection is released (OnConnClose / OnSessionClose for everything opened)",
 			"hostile-callbacks-unbalanced", cs, strings.Join(unbalanced, ", ")+" never closed")
 	}
 	for _, n := range run.notes {
@@ -65,27 +87,43 @@ func (r *runner) check(cs *Case, run *caseRun) {
 		case strings.Contains(n, "no answer"):
 			key = "hostile-unanswered"
 		}
-		r.violate(clause, key, cs, n)
+		violate(clause, key, cs, n)
 	}
 	if l := ts.ledger(); !l.zero() {
-		r.violate("once the hostile connection has ended, sessions, UDP registrations and reader slots are released",
+		violate("once the hostile connection has ended, sessions, UDP registrations and reader slots are released",
 			"hostile-ledger-not-empty", cs, fmt.Sprintf("ledger after the case: %+v", l))
 	}
+	return out
 }
 
-func (r *runner) runOne(cs *Case, seed uint64) {
-	if d := os.Getenv("HOSTILE_DUMP"); d != "" {
+// result of one execution of a case
+type caseResult struct {
+	cs    *Case
+	tr    corr.Case
+	viols []corr.Violation
+	dist  map[string]int
+	nreq  int
+	err   error
+}
+
+// execCase runs a case once on a fresh server.
+func (r *runner) execCase(cs *Case, seed uint64) *caseResult {
+	res := &caseResult{cs: cs}
+	var journal string
+	if r.inflight != "" {
+		journal = r.inflight + "/" + cs.Name + ".json"
 		b, _ := json.Marshal(cs)
-		os.WriteFile(d+"/"+cs.Name+".json", b, 0o644)
+		os.WriteFile(journal, b, 0o644)
 	}
 	run, err := runCase(cs, idleTimeout, readTimeout, seed)
-	if err != nil {
-		r.mu.Lock()
-		r.c.Note("case " + cs.Name + ": " + err.Error())
-		r.mu.Unlock()
-		return
+	if journal != "" {
+		os.Remove(journal)
 	}
-	r.check(cs, run)
+	if err != nil {
+		res.err = err
+		return res
+	}
+	res.viols = r.check(cs, run)
 	if d := os.Getenv("HOSTILE_DEBUG"); d != "" && (d == "1" || d == cs.Name) {
 		for i := range run.ops {
 			fmt.Fprintf(os.Stderr, "%s\n    => %s\n", run.ops[i], run.impl[i])
@@ -95,14 +133,92 @@ func (r *runner) runOne(cs *Case, seed uint64) {
 		}
 		fmt.Fprintf(os.Stderr, "notes: %v\n", run.notes)
 	}
-	r.mu.Lock()
-	for k, v := range run.dist {
-		r.c.DistN(k, v)
+	res.dist = run.dist
+	res.nreq = run.nreq
+	res.tr = corr.Case{Name: cs.Name, Ops: run.ops, Impl: run.impl, Nontrivial: len(run.ops) > 3}
+	return res
+}
+
+// agrees runs the oracle over one transcript.
+func (r *runner) agrees(tr *corr.Case) bool {
+	if r.c.Oracle == "" {
+		return true
 	}
-	r.c.DistN("requests", run.nreq)
-	r.c.Dist("cfg=" + cs.Cfg.String())
-	r.c.Add(corr.Case{Name: cs.Name, Ops: run.ops, Impl: run.impl, Nontrivial: len(run.ops) > 3})
-	r.mu.Unlock()
+	cmd := exec.Command(r.c.Oracle)
+	cmd.Stdin = strings.NewReader(strings.Join(tr.Ops, "\n") + "\n")
+	out, err := cmd.Output()
+	if err != nil {
+		return false
+	}
+	lines := strings.Split(strings.TrimRight(string(out), "\n"), "\n")
+	if len(lines) != len(tr.Impl) {
+		return false
+	}
+	for i := range lines {
+		if lines[i] != tr.Impl[i] {
+			return false
+		}
+	}
+	return true
+}
+
+// runOne runs a case; a run that disagrees with the model or violates the property must reproduce
+// on a second, slower run (longer idle time-out for the steps before the intended waits) before it
+// is reported: the machine may be loaded, and a connection that idles out while the harness is
+// busy elsewhere is a valid behaviour the schedule did not intend.
+func (r *runner) runOne(cs *Case, seed uint64) {
+	if d := os.Getenv("HOSTILE_DUMP"); d != "" {
+		b, _ := json.Marshal(cs)
+		os.WriteFile(d+"/"+cs.Name+".json", b, 0o644)
+	}
+	res := r.execCase(cs, seed)
+	if res.err == nil && (len(res.viols) > 0 || !r.agrees(&res.tr)) {
+		r.mu.Lock()
+		r.dump.Dist["rerun"]++
+		r.mu.Unlock()
+		slowCs := *cs
+		slowCs.IdleMs = 3 * max(cs.IdleMs, 1000)
+		slowCs.ReadMs = 1500
+		res2 := r.execCase(&slowCs, seed+1)
+		res2.cs = cs
+		if res2.err == nil {
+			// keep the violations that reproduce
+			var keep []corr.Violation
+			for _, v := range res2.viols {
+				for _, w := range res.viols {
+					if v.Key == w.Key {
+						keep = append(keep, v)
+						break
+					}
+				}
+			}
+			res2.viols = keep
+			res = res2
+		}
+	}
+	r.mu.Lock()
+	defer r.mu.Unlock()
+	if res.err != nil {
+		r.dump.Notes = append(r.dump.Notes, "case "+cs.Name+": "+res.err.Error())
+		return
+	}
+	for _, v := range res.viols {
+		dup := false
+		for _, o := range r.dump.Violations {
+			if o.Key == v.Key {
+				dup = true
+			}
+		}
+		if !dup {
+			r.dump.Violations = append(r.dump.Violations, v)
+		}
+	}
+	for k, v := range res.dist {
+		r.dump.Dist[k] += v
+	}
+	r.dump.Dist["requests"] += res.nreq
+	r.dump.Dist["cfg="+cs.Cfg.String()]++
+	r.dump.Cases = append(r.dump.Cases, res.tr)
 }
 
 func (r *runner) runAll(cases []*Case, workers int) {
@@ -124,62 +240,64 @@ func (r *runner) runAll(cases []*Case, workers int) {
 	wg.Wait()
 }
 
-func mcastWorks() bool {
-	ts, err := startServer(Cfg{Handler: "full", UDP: true, Mcast: true}, idleTimeout, readTimeout, 1)
-	if err != nil {
-		return false
-	}
-	defer ts.close()
-	c := &Case{Name: "mcast-probe", Cfg: ts.cfg}
-	_ = c
-	return true
-}
-
-// Run is the domain entry point.
-func Run(c *corr.Ctx) {
-	c.Rule("real gortsplib Server on loopback per case (handlers full/params/play/record/none × UDP on/off × TLS on/off [× multicast]); " +
-		"1–3 connections per case, each a valid conversation (OPTIONS/DESCRIBE/SETUP/PLAY…, ANNOUNCE/SETUP/RECORD…, HTTP tunnel, WebSocket) " +
-		"changed by grammar-level mutations (header deletion / duplication / odd values, Transport / Session / KeyMgmt / SDP inconsistencies, " +
-		"reordering, duplication, frames in every state, limits) and truncation at every offset; per step the answer (status / close), the " +
-		"callbacks and the sizes of the server's tables are compared with the Lean ledger model; a case is non-trivial when it has more than " +
-		"two steps; distinct = distinct op-line sequences")
-	r := &runner{c: c}
+// corrChild generates and runs the correspondence cases in this (child) process.
+func (r *runner) corrChild(out string) {
+	c := r.c
+	r.dump = &corrDump{Dist: map[string]int{}}
+	r.inflight = filepath.Dir(out) + "/inflight"
+	os.MkdirAll(r.inflight, 0o755)
 	if c.Replay != nil {
 		var cs Case
 		if err := json.Unmarshal(c.Replay, &cs); err != nil {
 			panic(err)
 		}
-		if strings.HasPrefix(cs.Name, "scenario") {
-			r.replayScenario(c.Replay)
-			return
-		}
 		r.runOne(&cs, c.Seed)
-		return
+	} else {
+		var cases []*Case
+		cases = append(cases, corpusCases()...)
+		cfgs := allCfgs(false)
+		rng := c.Rng
+		for _, cfg := range []Cfg{{Handler: "full", UDP: true}, {Handler: "full", UDP: false, TLS: true}} {
+			cases = append(cases, tunnelCases(rng, cfg)...)
+		}
+		cases = append(cases, truncationCases(rng, Cfg{Handler: "full", UDP: true}, c.N(7, 1))...)
+		if !c.Quick() {
+			cases = append(cases, truncationCases(rng, Cfg{Handler: "full", UDP: false, TLS: true}, 3)...)
+		}
+		n := c.N(900, 40000)
+		for i := 0; i < n; i++ {
+			cfg := cfgs[rng.IntN(len(cfgs))]
+			sub := rand.New(rand.NewPCG(c.Seed, uint64(i)+77))
+			cases = append(cases, genCase(sub, cfg, fmt.Sprintf("gen-%d", i), func(k string) { r.dump.Dist[k]++ }))
+		}
+		// slow cases (time-outs) first so that they overlap with the rest
+		sort.SliceStable(cases, func(i, j int) bool { return slow(cases[i]) > slow(cases[j]) })
+		r.runAll(cases, c.N(12, 16))
 	}
-	if childMode() {
-		return
+	b, _ := json.Marshal(r.dump)
+	os.WriteFile(out, b, 0o644)
+}
+
+// Run is the domain entry point.
+func Run(c *corr.Ctx) {
+	c.Rule("correspondence: real gortsplib Server on loopback per case (handlers full/params/play/record/none × UDP on/off × TLS on/off); " +
+		"1–3 connections per case, each a valid conversation (OPTIONS/DESCRIBE/SETUP/PLAY…, ANNOUNCE/SETUP/RECORD…, HTTP tunnel, WebSocket) " +
+		"changed by grammar-level mutations (header deletion / duplication / odd values, Transport / Session / KeyMgmt / SDP inconsistencies, " +
+		"reordering, duplication, frames in every state, limits) and truncation at every offset; per step the answer (status / close), the " +
+		"callbacks and the sizes of the server's tables are compared with the Lean ledger model.  property oracle: scenarios in child processes — " +
+		"a published stream, a well-behaved client that keeps playing, 1–4 simultaneous hostile peers (special attacks, grammar-level and byte-level " +
+		"mutations): no crash, every silent peer closed in time, the good client served all along, a fresh client served afterwards, tables and " +
+		"goroutines back to the baseline.  a case is non-trivial when it has more than two steps; distinct = distinct op-line sequences / scenarios")
+	r := &runner{c: c}
+	switch {
+	case *flagScenChild != "":
+		childMain(*flagScenChild)
+		os.Exit(0)
+	case *flagCorrChild != "":
+		r.corrChild(*flagCorrChild)
+		os.Exit(0)
 	}
-	var cases []*Case
-	cases = append(cases, corpusCases()...)
-	cfgs := allCfgs(false)
-	rng := c.Rng
-	for _, cfg := range []Cfg{{Handler: "full", UDP: true}, {Handler: "full", UDP: false, TLS: true}} {
-		cases = append(cases, tunnelCases(rng, cfg)...)
-	}
-	cases = append(cases, truncationCases(rng, Cfg{Handler: "full", UDP: true}, c.N(7, 1))...)
-	if !c.Quick() {
-		cases = append(cases, truncationCases(rng, Cfg{Handler: "full", UDP: false, TLS: true}, 3)...)
-	}
-	n := c.N(900, 40000)
-	for i := 0; i < n; i++ {
-		cfg := cfgs[rng.IntN(len(cfgs))]
-		sub := rand.New(rand.NewPCG(c.Seed, uint64(i)+77))
-		cases = append(cases, genCase(sub, cfg, fmt.Sprintf("gen-%d", i), func(k string) { c.Dist(k) }))
-	}
-	// slow cases (time-outs) first so that they overlap with the rest
-	sort.SliceStable(cases, func(i, j int) bool { return slow(cases[i]) > slow(cases[j]) })
-	r.runAll(cases, c.N(12, 16))
-	r.scenarios()
+	r.parent()
 }
 
 func slow(cs *Case) int {
